@@ -128,3 +128,44 @@ func ZZ_C20_everyCharacter() {
 	nondet.Reach("C20.char.digit-zero", key == "p0q" && found)
 	nondet.Reach("C20.char.replaced", key == "p/q" && found)
 }
+
+// ZZ_C20_labelsFollowEdits: the label-info series is a function of the object as it is NOW: the
+// same object (same UID, same metadata.generation — label edits do not bump it — and, for good
+// measure, same resourceVersion) is exported, its labels are edited (a key added, removed or
+// re-valued), and it is exported again: the second series pairs exactly the current keys with their
+// current values.
+func ZZ_C20_labelsFollowEdits() {
+	obj := &metav1.ObjectMeta{Name: "foo", Namespace: "ns", UID: "uid-foo", Generation: 3, ResourceVersion: "41", Labels: map[string]string{"app": "agent", "team.owner/id": "a"}}
+	k1, v1 := BuildInfoLabels(obj)
+	nondet.Assert("C20.edits.first", len(k1) == 2 && len(v1) == 2)
+	switch nondet.String("edit", "add-key", "remove-key", "change-value", "replace-key") {
+	case "add-key":
+		obj.Labels["zone-1"] = "z"
+	case "remove-key":
+		delete(obj.Labels, "app")
+	case "change-value":
+		obj.Labels["app"] = "agent2"
+	default:
+		delete(obj.Labels, "team.owner/id")
+		obj.Labels["team_owner-id"] = "b"
+	}
+	if nondet.Bool("resourceVersionBumped") {
+		obj.ResourceVersion = "42"
+	}
+	k2, v2 := BuildInfoLabels(obj)
+	nondet.Assert("C20.edits.len", len(k2) == len(obj.Labels) && len(v2) == len(obj.Labels))
+	if len(k2) != len(obj.Labels) || len(v2) != len(obj.Labels) {
+		return
+	}
+	for key, val := range obj.Labels {
+		found := false
+		for i := range k2 {
+			if k2[i] == zzSanitize(key) && v2[i] == val {
+				found = true
+			}
+		}
+		nondet.Assert("C20.edits.current-label-exported", found)
+	}
+	nondet.Observe("keys", k2)
+	nondet.Reach("C20.edits.key-added", len(k2) == 3)
+}
